@@ -893,7 +893,12 @@ def _run_algebra(case):
     if len(level) % 2:
       nxt.append(level[-1])
     level = nxt
-  forms = {'ab_c': a.merge(b).merge(c), 'a_bc': a.merge(b.merge(c)), 'ab': a.merge(b), 'ba': b.merge(a),
+  # doubling chain: a merged with itself 17 times has 2^17 times a's fields (an accumulator silently kept in a narrow
+  # dtype - bool, uint8, int8, uint16, float16 - wraps, saturates or rounds long before that)
+  dbl = a
+  for _ in range(17):
+    dbl = dbl.merge(dbl)
+  forms = {'dbl17': dbl, 'ab_c': a.merge(b).merge(c), 'a_bc': a.merge(b.merge(c)), 'ab': a.merge(b), 'ba': b.merge(a),
            'a': a, 'za': z.merge(a), 'az': a.merge(z), 'zz': z.merge(z), 'z': z,
            'left': left, 'left_nozero': left_nozero, 'right': right, 'right_zero': right_zero, 'tree': level[0]}
   jitted = None
@@ -1211,6 +1216,14 @@ def _algebra_oracle(case, obs):
     d = differ(f[x], f[y])
     if d:
       out.append((key, f'{name}: {what}: {d}'))
+  for fld in ('accum', 'weight'):
+    if fld in f['dbl17'] and all(v is not None for v in f['a'][fld]):
+      want = [v * 2.0 ** 17 for v in f['a'][fld]]
+      got = f['dbl17'][fld]
+      if any(g is None or abs(g - w) > tol * (1 + abs(w)) for g, w in zip(got, want)):
+        out.append(('merge-narrow-accumulation', f'{name}: a merged with itself 17 times has {fld} {got[:4]} (dtypes {f["dbl17"]["dtypes"]}), '
+                    f'2^17 times a\'s {fld} is {want[:4]}'))
+        break
   # merge adds the fields of the single-example statistics (they are in the Stat's domain)
   singles = obs['singles']
   for fld in ('accum', 'weight'):
